@@ -3,7 +3,7 @@
 Hypothesis-generated Sim descriptions (every attribute type, nested sweeps / Monte-Carlo, every Scalar
 form, every SaveTarget form), built three ways and exported alone or in lists; compared with a
 reference encoder written from the statement."""
-import json, time
+import json, time, pathlib
 from decimal import Decimal
 from fractions import Fraction
 from .. import env, core, par
@@ -270,10 +270,11 @@ def match_analysis(want, got, path, out):
 
 def exp_ctrl(a, name):
     t = a["t"]
+    # the Sim holds a pathlib.Path: its text is the path of the Sim (no further ".." / symlink resolution is a "same path")
     if t == "include":
-        return ("include", a["path"])
+        return ("include", str(pathlib.Path(a["path"])))
     if t == "lib":
-        return ("lib", a["path"], a["section"])
+        return ("lib", str(pathlib.Path(a["path"])), a["section"])
     if t == "literal":
         return ("literal", a["text"])
     if t == "param":
@@ -522,10 +523,14 @@ def strategies():
         return st.one_of(leaf, leaf, st.fixed_dictionaries({"t": st.just("sweep"), "name": uname, "var": var, "sweep": sweep, "inner": inner}),
                          st.fixed_dictionaries({"t": st.just("monte"), "name": uname, "npts": st.integers(1, 50), "inner": inner}))
 
+    seg = st.sampled_from(["models", "pdk", "v2", "..", "..", ".", "y z", "a.b", "corners.lib", "all.sp", "~", "C:"])
+    paths = st.one_of(st.sampled_from(["/home/models", "a.sp", "/x/y z.lib", "c.lib"]),
+                      st.tuples(st.sampled_from(["", "/", "./", "../", "//"]), st.lists(seg, min_size=1, max_size=5), st.sampled_from(["", "", "/"])).map(
+                          lambda t: t[0] + "/".join(t[1]) + t[2]))
     ctrl = st.one_of(
         st.fixed_dictionaries({"t": st.just("param"), "name": st.sampled_from(["px", "py", "pz"]), "val": scalar}),
-        st.fixed_dictionaries({"t": st.just("include"), "path": st.sampled_from(["/home/models", "a.sp", "/x/y z.lib"])}),
-        st.fixed_dictionaries({"t": st.just("lib"), "path": st.sampled_from(["/home/models", "c.lib"]), "section": st.sampled_from(["fast", "tt", ""])}),
+        st.fixed_dictionaries({"t": st.just("include"), "path": paths}),
+        st.fixed_dictionaries({"t": st.just("lib"), "path": paths, "section": st.sampled_from(["fast", "tt", ""])}),
         st.fixed_dictionaries({"t": st.just("literal"), "text": st.sampled_from([".temp 25", "* hello", "simulator lang=spice"])}),
         st.fixed_dictionaries({"t": st.just("meas"), "name": st.sampled_from(["m1", "delay", "gain"]), "expr": st.sampled_from(["trig_targ", "max(v(a))", ""]),
                                "analysis": st.one_of(st.sampled_from(["tran", "ac", "dc"]), st.fixed_dictionaries({"obj": st.fixed_dictionaries({"t": st.just("tran"), "name": st.just("mt"), "tstop": scalar, "tstep": st.none()})}))}),
